@@ -151,6 +151,7 @@ def run(ctx):
                 ctx.fail("operator raised on transversal operands", desc, got=repr(ex), sig={"family": "kinds"})
             ctx.count("raised:" + type(ex).__name__)
         ctx.case("operand-intact", (repr(da), repr(db), op))
+        ctx.check(not (shapes.point_ids(A) & shapes.point_ids(B)) or A is B, "operation left its two operands sharing Point2D objects", desc)
         ctx.check(snap(ctx, A) == sa, "operation changed the region of its first operand", desc, sa, snap(ctx, A))
         ctx.check(snap(ctx, B) == sb, "operation changed the region of its second operand", desc, sb, snap(ctx, B))
         if R is None:
